@@ -304,7 +304,7 @@ impl Rebuildable for Declaration
 					Ok(ValueType::Word {
 						identifier,
 						size_in_bytes,
-					}) =>
+					}) if identifier.resolution_id > 0 =>
 					{
 						write!(
 							&mut buffer,
@@ -312,6 +312,13 @@ impl Rebuildable for Declaration
 							8 * size_in_bytes,
 							identify(identifier)
 						)?;
+					}
+					Ok(ValueType::Word {
+						identifier: _,
+						size_in_bytes,
+					}) =>
+					{
+						write!(&mut buffer, "word{}", 8 * size_in_bytes)?;
 					}
 					Ok(ValueType::UnresolvedStructOrWord {
 						identifier: Some(identifier),
